@@ -89,6 +89,12 @@ func (fr *Frame) call(in ssa.Value, cc *ssa.CallCommon, st *State) Val {
 			if !ok {
 				panic(vcErr("invoke on %T", recv))
 			}
+			// statically known dynamic type: call the concrete method
+			if sp, ok := iv.Conc.(StructPtr); ok && sp.Nm != nil {
+				if m := c.prog.LookupMethod(types.NewPointer(sp.Nm), cc.Method.Pkg(), cc.Method.Name()); m != nil {
+					return wrap(fr.staticCall(m, nil, append([]Val{sp}, args...), st, pos))
+				}
+			}
 			fr.causalRead(cc, args, st, pos)
 			return wrap(fr.ndInvoke(iv, rt, cc.Method, args, st, pos))
 		}
@@ -152,7 +158,9 @@ func (fr *Frame) staticCall(callee *ssa.Function, free []Val, args []Val, st *St
 				for i, a := range args {
 					env.bound[fmt.Sprintf("arg%d", i)] = a
 				}
-				c.oblige(st, "callsite", cl.Label, cl.Props, c.evalBool(env, cl.Expr), pos, "at the call of "+callee.Name()+": "+cl.Src)
+				g := c.evalBool(env, cl.Expr)
+				c.oblige(st, "callsite", cl.Label, cl.Props, g, pos, "at the call of "+callee.Name()+": "+cl.Src)
+				c.assume(st.reach, g) // proved here, available afterwards
 			}
 		}
 	}
@@ -204,7 +212,7 @@ func (fr *Frame) staticCall(callee *ssa.Function, free []Val, args []Val, st *St
 		}
 		return fr.callByContract(fc, callee.Signature, names, cargs, st, pos, callee.String())
 	}
-	inModule := strings.HasPrefix(pkgPath, modulePrefix) || callee.Parent() != nil
+	inModule := strings.HasPrefix(pkgPath, modulePrefix) || callee.Parent() != nil || callee.Synthetic != ""
 	if inModule && len(callee.Blocks) > 0 {
 		fc := c.contractOf(callee)
 		if hasLoops(callee) && (fc == nil) {
@@ -346,6 +354,32 @@ func (fr *Frame) callByContract(fc *FuncContract, sig *types.Signature, srcNames
 	post := &Env{c: c, fr: fr, st: st, old: pre, names: copyMap(env.names), oldNames: env.names}
 	for i := 0; i < rs.Len(); i++ {
 		v := c.freshVal(st, "r_"+sanitize(what), rs.At(i).Type())
+		isFresh := (i < len(fc.Results) && contains(fc.Fresh, fc.Results[i])) || contains(fc.Fresh, fmt.Sprintf("r%d", i))
+		if isFresh {
+			switch x := v.(type) {
+			case SliceV:
+				x.ID = c.newID(st)
+				v = x
+			case StructPtr:
+				x.Ref = c.newID(st)
+				v = x
+			case IfaceV:
+				x.Ref = c.newID(st)
+				v = x
+			}
+		}
+		if i < len(fc.Results) {
+			if tn, ok := fc.DynTypes[fc.Results[i]]; ok {
+				if iv, ok := v.(IfaceV); ok {
+					if sp, ok := c.structByName(tn); ok {
+						sp.Ref = iv.Ref
+						iv.Conc = sp
+						iv.Typ = types.NewPointer(sp.Nm)
+						v = iv
+					}
+				}
+			}
+		}
 		out = append(out, v)
 		if i < len(fc.Results) {
 			post.names[fc.Results[i]] = v
@@ -413,9 +447,13 @@ func (fr *Frame) havocTarget(env *Env, st *State, target string) {
 		return
 	}
 	if strings.HasSuffix(target, "[*]") {
-		v, ok := env.lookup(strings.TrimSuffix(target, "[*]"))
-		if !ok {
-			panic(vcErr("assigns target %s unknown", target))
+		src := strings.TrimSuffix(target, "[*]")
+		v := c.eval(env, parseExprSrc(src, "assigns", 0))
+		if ap, ok := v.(ArrPtr); ok {
+			name := "H." + string(ap.Elem)
+			h := c.heap(st, name, heapSort(ap.Elem))
+			c.setHeap(st, name, c.def("Hc", c.sto(h, ap.ID, c.fresh("cells", arrSort(ap.Elem)))), &ap.ID)
+			return
 		}
 		s, ok := v.(SliceV)
 		if !ok {
@@ -427,10 +465,7 @@ func (fr *Frame) havocTarget(env *Env, st *State, target string) {
 		return
 	}
 	if i := strings.LastIndex(target, "."); i > 0 {
-		v, ok := env.lookup(target[:i])
-		if !ok {
-			panic(vcErr("assigns target %s unknown", target))
-		}
+		v := c.eval(env, parseExprSrc(target[:i], "assigns", 0))
 		f := target[i+1:]
 		switch x := v.(type) {
 		case IfaceV:
@@ -493,6 +528,18 @@ func (fr *Frame) builtin(name string, cc *ssa.CallCommon, args []Val, st *State,
 		c.note("append always yields a fresh backing array (capacity is not modelled)")
 		return SliceV{id, intLit(0), n, s.Elem, s.ElemT}
 	case "copy":
+		if fr.fc != nil && fr.top {
+			for _, cl := range fr.fc.Clauses {
+				if cl.Kind == "callsite" && cl.Callee == "copy" {
+					env := fr.envAt(fr.curBlock, st, nil)
+					env.atLatch = true
+					env.bound = map[string]Val{"arg0": args[0], "arg1": args[1]}
+					g := c.evalBool(env, cl.Expr)
+					c.oblige(st, "callsite", cl.Label, cl.Props, g, pos, "at the call of copy: "+cl.Src)
+					c.assume(st.reach, g)
+				}
+			}
+		}
 		d := args[0].(SliceV)
 		s := args[1].(SliceV)
 		name := "H." + string(d.Elem)
@@ -731,4 +778,32 @@ func (fr *Frame) causalRead(cc *ssa.CallCommon, args []Val, st *State, pos token
 	}
 	c.oblige(st, "causal", "C14.causal-read", []string{"C14"}, app(SBool, "<=", idx, i), pos,
 		fmt.Sprintf("input series %s is read at an index <= the current timestep", p.Name()))
+}
+
+// structByName finds a struct type of the package under verification (or of a
+// package it imports) by name.
+func (c *Ctx) structByName(name string) (StructPtr, bool) {
+	var pkg *types.Package
+	if c.top != nil && c.top.Package() != nil {
+		pkg = c.top.Package().Pkg
+	}
+	if pkg == nil {
+		return StructPtr{}, false
+	}
+	obj := pkg.Scope().Lookup(name)
+	if obj == nil {
+		for _, imp := range pkg.Imports() {
+			if o := imp.Scope().Lookup(name); o != nil {
+				obj = o
+			}
+		}
+	}
+	if obj == nil {
+		return StructPtr{}, false
+	}
+	st, ok := obj.Type().Underlying().(*types.Struct)
+	if !ok {
+		return StructPtr{}, false
+	}
+	return StructPtr{Key: typeKey(obj.Type()), Typ: st, Nm: obj.Type()}, true
 }
